@@ -208,6 +208,15 @@ impl<T: ColumnType> Record<T> {
     }
 }
 
+/// Formats a duration as a single token that [`humantime::parse_duration`] reads back,
+/// e.g. `1m30s` (humantime separates the components with blanks, which the parser
+/// would take for several tokens).
+fn format_duration(duration: Duration) -> String {
+    humantime::format_duration(duration)
+        .to_string()
+        .replace(' ', "")
+}
+
 /// As is the standard for Display, does not print any trailing
 /// newline except for records that always end with a blank line such
 /// as Query and Statement.
@@ -236,7 +245,7 @@ impl<T: ColumnType> std::fmt::Display for Record<T> {
                         f,
                         " retry {} backoff {}",
                         retry.attempts,
-                        humantime::format_duration(retry.backoff)
+                        format_duration(retry.backoff)
                     )?;
                 }
                 writeln!(f)?;
@@ -279,7 +288,7 @@ impl<T: ColumnType> std::fmt::Display for Record<T> {
                         f,
                         " retry {} backoff {}",
                         retry.attempts,
-                        humantime::format_duration(retry.backoff)
+                        format_duration(retry.backoff)
                     )?;
                 }
                 writeln!(f)?;
@@ -312,7 +321,7 @@ impl<T: ColumnType> std::fmt::Display for Record<T> {
                         f,
                         " retry {} backoff {}",
                         retry.attempts,
-                        humantime::format_duration(retry.backoff)
+                        format_duration(retry.backoff)
                     )?;
                 }
                 writeln!(f, "\n{command}")?;
@@ -322,7 +331,7 @@ impl<T: ColumnType> std::fmt::Display for Record<T> {
                 Ok(())
             }
             Record::Sleep { loc: _, duration } => {
-                write!(f, "sleep {}", humantime::format_duration(*duration))
+                write!(f, "sleep {}", format_duration(*duration))
             }
             Record::Subtest { loc: _, name } => {
                 write!(f, "subtest {name}")
